@@ -355,6 +355,38 @@ func Run(r *evid.Run) {
 		}
 	})
 	r.Bound("named configurations: %d; operations: %v", len(cfgs), opNames)
+	// escape neighbourhoods: surrogate halves next to ordinary escapes, raw characters and truncated escapes,
+	// as a string value and as a member name with the same text as its value
+	el := 2
+	if r.Tier == "thorough" {
+		el = 3
+	}
+	enum.Strings(r, views.EscapeAtoms, el+1, func(w *enum.Worker) func([]byte) {
+		c := &checker{out: map[string]int64{}}
+		w.Describe = func() any { return c.cur }
+		w.Done = func() { r.Outcomes(c.out) }
+		var buf []byte
+		return func(body []byte) {
+			for shape := 0; shape < 2; shape++ {
+				if shape == 0 {
+					buf = append(append(append(buf[:0], '"'), body...), '"')
+				} else {
+					buf = append(append(append(append(append(buf[:0], `{"`...), body...), `":["`...), body...), `"]}`...)
+				}
+				lim := len(cfgs)
+				if !c.prep(buf) {
+					lim = min(20, lim)
+				}
+				for i := 0; i < lim; i++ {
+					for op := range opNames {
+						c.check(r, buf, op, cfgs[i].c, cfgs[i].o)
+						r.Nontrivial.Add(1)
+					}
+				}
+			}
+		}
+	})
+	r.Bound("escape neighbourhoods: every sequence of <=%d atoms of %q as a string and as a member name + value, through every named configuration and operation", el+1, views.EscapeAtoms)
 	product(r)
 	reorderStress(r)
 	wideObjects(r)
